@@ -258,9 +258,11 @@ func c16E2E(c C16Case, r evid.Result) evid.Result {
 	// ends of the bracket and the observed one must lie in between.
 	lo0, hiEnd0, _, _, _ := c16Ref(c, before.UnixNano())
 	lo1, hiEnd1, _, _, _ := c16Ref(c, after.UnixNano())
-	since, err1 := strconv.ParseInt(opts.Since, 10, 64)
-	until, err2 := strconv.ParseInt(opts.Until, 10, 64)
-	if err1 != nil || err2 != nil {
+	// read the way the client library and the daemon read them (seconds, maybe with a fraction)
+	sinceT, err1 := fakedocker.WindowBound(opts.Since)
+	untilT, err2 := fakedocker.WindowBound(opts.Until)
+	since, until := sinceT.Unix(), untilT.Unix()
+	if err1 != nil || err2 != nil || opts.Since == "" || opts.Until == "" {
 		r.Violation = evid.Viol("C16/e2e-window-format", "daemon was asked for since=%q until=%q", opts.Since, opts.Until)
 		return r
 	}
